@@ -6,6 +6,7 @@ import (
 	"fmt"
 	"io"
 	"net/http"
+	"strconv"
 	"strings"
 
 	"verif/sim/core"
@@ -124,6 +125,7 @@ func genC07(t *core.Tape, tier string) *Scenario {
 	if len(payloads) > 0 {
 		firstLen = len(payloads[0])
 	}
+	lyingLength := false
 	switch t.Pick([]int{2, 6, 3, 2}, "byz.family") {
 	case 0:
 		info.class = "valid"
@@ -214,7 +216,16 @@ func genC07(t *core.Tape, tier string) *Scenario {
 	case 2: // mutated
 		info.class = "mutated"
 		for n := 1 + t.Choose(3, "mut.n"); n > 0; n-- {
-			switch t.Choose(8, "mut.op") {
+			switch t.Choose(9, "mut.op") {
+			case 8:
+				// a declared length the body does not have: net/http reports the
+				// missing bytes as an unexpected EOF at the end of the body
+				if proto == PConnect && !streaming {
+					n := []int64{int64(len(body)) + 1, int64(len(body)) + 1000, 1 << 40, 1 << 60}[t.Choose(4, "mut.cl")]
+					hdr["Content-Length"] = []string{strconv.FormatInt(n, 10)}
+					lyingLength = true
+					sc.Notes["lying_content_length"]++
+				}
 			case 0:
 				if len(body) > 0 {
 					body = append([]byte(nil), body...)
@@ -261,7 +272,12 @@ func genC07(t *core.Tape, tier string) *Scenario {
 		}
 		body = t.Bytes(t.Choose(48, "rnd.n"), 2, "rnd.body")
 	}
-	if (info.class == "mutated") && sc.Handlers[0].ReadMax == 0 {
+	unenveloped := false
+	if ct := hdr["Content-Type"]; len(ct) == 1 && (ct[0] == "application/proto" || ct[0] == "application/json") {
+		// unary Connect bodies carry no length prefix a peer could lie in
+		unenveloped = true
+	}
+	if (info.class == "mutated") && sc.Handlers[0].ReadMax == 0 && !unenveloped {
 		// a hostile length prefix makes a handler without a read limit reserve
 		// up to 4 GiB by design; keep the simulated process small
 		sc.Handlers[0].ReadMax = []int{64, 4096, 1 << 20}[t.Choose(3, "readmax.forced")]
@@ -269,6 +285,9 @@ func genC07(t *core.Tape, tier string) *Scenario {
 	endErr := error(nil)
 	if info.class == "mutated" && t.Bool(1, 4, "enderr") {
 		endErr = []error{io.ErrUnexpectedEOF, errors.New("connection reset by peer")}[t.Choose(2, "enderr.which")]
+	}
+	if lyingLength && endErr == nil {
+		endErr = io.ErrUnexpectedEOF
 	}
 	sc.Notes["c07_"+info.class]++
 	p.Raw = &RawReq{Method: method, Header: canonKeys(hdr), Body: body, EndErr: endErr}
